@@ -38,6 +38,10 @@ where
     let mut header = [0u8; SNA_HEADER_SIZE];
     asset.read_exact(&mut header)?;
 
+    // Snapshot replaces whole CPU state: HALT, pending prefix or EI delay
+    // of the previously running program must not leak into it
+    emulator.cpu.reset_transient_state();
+
     // i-reg
     emulator.cpu.regs.set_i(header[0]);
     // alt-regs
